@@ -568,6 +568,12 @@ func openStore(dir string, options StoreOptions) (*Store, error) {
 	var fnames []string
 	for _, fileInfo := range fileInfos { // Find candidate file names.
 		fname := fileInfo.Name()
+		if fileInfo.IsDir() {
+			// A sub-directory is never a data file, whatever its name.
+			// (Opened read-only it would not even fail to open, but
+			// make the whole open fail at the first read.)
+			continue
+		}
 		if strings.HasPrefix(fname, StorePrefix) &&
 			strings.HasSuffix(fname, StoreSuffix) {
 			fnames = append(fnames, fname)
